@@ -85,10 +85,10 @@ pub struct MintBuilder {
     mints: BTreeMap<PolicyID, ScriptMint>,
 }
 
-// the sum of two mint amounts must stay a CBOR int (-2^64 ..= 2^64 - 1), otherwise it would be serialized truncated
+// a mint quantity is an int64 in the ledger (mint = multiasset<nonZeroInt64>): the sum of two mint amounts must stay in that range
 fn checked_mint_sum(current: i128, amount: i128) -> Result<i128, JsError> {
     let sum = current + amount;
-    if sum < -(u64::MAX as i128) - 1 || sum > u64::MAX as i128 {
+    if sum < i64::MIN as i128 || sum > i64::MAX as i128 {
         return Err(JsError::from_str("Mint amount is out of bounds"));
     }
     Ok(sum)
@@ -138,6 +138,8 @@ impl MintBuilder {
         if amount.0 == 0 {
             return Err(JsError::from_str("Mint cannot be zero."));
         }
+        // checked before anything is stored: a refused amount must not leave an entry behind
+        checked_mint_sum(0, amount.0)?;
         let script_mint = self.mints.get(&mint_witness.script_hash());
         Self::validate_mint_witness(mint_witness, script_mint)?;
 
